@@ -163,3 +163,10 @@ chk("C10", "HIST", "model_checking",
     "reader is explored by BFS to a fixpoint over seek+read operations with deduplication on its complete private state. Stream, positional read and per-block access must agree.",
     "Depth-bounded for all readers but the metadata reader; directory reader with flags 0.",
     "explicit-state exploration of API histories on the implementation with a fresh-object reference", "3/C10")
+
+chk("C19", "HIST", "model_checking",
+    "For each of 19 copyable object kinds (5 compressors x 2 directions, fragment/ID table, metadata/directory(x2)/data/xattr reader, read-only file, xattr writer) every pre-copy history "
+    "of length <= 1 (quick) / 2 (thorough), every interleaving of <= 2 / 3 further operations over {original, copy} and both release orders (the survivor is exercised again) is executed "
+    "against the real library; every answer must equal that of a fresh object replaying only that object's own history; ASan and LeakSanitizer clean; shared reference counts restored.",
+    "Operation alphabets of 2-5 operations per kind; LeakSanitizer at process exit as leak oracle.",
+    "explicit-state exploration of API histories on the implementation with a fresh-object reference", "3/C19")
